@@ -116,13 +116,16 @@ func parseCtrlMsg(str string) ctrlMsg {
 	str = strings.TrimSpace(str)
 
 	parts := strings.SplitN(str, " ", 2)
+	if len(parts) < 2 {
+		parts = append(parts, "") // Commands received without a parameter
+	}
 	parts[0] = strings.ToUpper(parts[0])
 
 	msg := ctrlMsg{
 		cmd: command(parts[0]),
 	}
 
-	isEchoBack := len(parts) > 1 && strings.HasPrefix(strings.ToLower(parts[1]), "now ")
+	isEchoBack := strings.HasPrefix(strings.ToLower(parts[1]), "now ")
 	if isEchoBack {
 		parts[1] = parts[1][len("now "):]
 	}
